@@ -39,3 +39,7 @@ spec fn decodes_bytes(pre_state: DecoderState, pre_bytes: Seq<u8>, post: &Decode
 spec fn read_decoded(pre_state: DecoderState, pre_bytes: Seq<u8>, post: &Decoder, n: int) -> bool {
     exists|s: Seq<u8>| s.len() == n && #[trigger] decodes_bytes(pre_state, pre_bytes, post, s)
 }
+// the bytes s are rejected by the format automaton when fed in state pre_state
+spec fn read_rejected(pre_state: DecoderState, s: Seq<u8>) -> bool {
+    drun(dview(pre_state), s, 252, 64008).0 is Fail
+}
